@@ -12,13 +12,23 @@ NOT_APPLICABLE = {
     'C08': 'numerical agreement of two algorithms and finiteness at extreme rates: quantifies over floating-point values',
     'C09': 'numerical invariance under re-description of the cell; reduction and centering are numerical searches',
     'C19': 'outcome of a numerical lattice reduction over arbitrary supercells; not a shape property',
-    'C20': 'exactness of orbits and invariant bases for every point group is the outcome of numerical search '
-           '(SVD null spaces, tolerance comparisons); not a shape property',
     'C25': 'orthonormality / completeness of numerically constructed bases',
 }
 
 # id -> (technique, level text, level note, design ref)
 CLAIMS = {
+    'C20': ('whole-group / exact-filter rules on the comprehensions and loops of Crystal.genpoint, genWyckoffsets, Wyckoffpos, '
+            'VectorBasis, SymmTensorBasis and FullVectorBasis (located by what they iterate over, verified by their filters, '
+            'elements and the conditions holding at the accepting statement), cache discipline of the site routines',
+            'Static, exhaustive over the six generators: decides that a site point group is drawn from every operation of the '
+            'space group and keeps exactly those whose index map fixes the site (shifted back onto it), that Wyckoff orbits and '
+            'Wyckoffpos images are taken under every operation, that an image is dropped only when periodically close to one '
+            'already kept, that site vector / tensor bases intersect over every operation of the site point group starting from '
+            'each operation\'s own eigen-analysis, that FullVectorBasis places the image vector on the image site under the same '
+            'operation, and that nothing handed out is cached storage. Necessary conditions only: orthonormality and exactness '
+            'of the invariant bases (numerical eigen-analysis, CombineVectorBasis / CombineTensorBasis) and the effect of addbasis '
+            'on the group are NOT decided.',
+            'trusts CPython ast', 'DESIGN.md §4 C20'),
     'C12': ('sibling comparison of the rate-matrix assembly with diffusivity / elastodiffusion (normal form), data-flow rules for the '
             'matrix handed to the symmetric eigen-solver, small axis typing ({site, mode}) of the mode-strength contraction, '
             'relative-threshold rule for the equilibrium mode, conservation rule for the merged / appended mode tensors',
